@@ -9,11 +9,23 @@ let rec int_of_nat = function Datatypes.O -> 0 | Datatypes.S n -> 1 + int_of_nat
 let hexval c = match c with '0'..'9' -> Char.code c - 48 | 'a'..'f' -> Char.code c - 87 | 'A'..'F' -> Char.code c - 55 | _ -> failwith "hex"
 let bytes_of_hex s =
   let n = Stdlib.String.length s / 2 in
-  Stdlib.List.init n (fun i -> z_of_int (hexval s.[2*i] * 16 + hexval s.[2*i+1]))
+  Stdlib.List.init n (fun i -> z_of_int (hexval (Stdlib.String.get s (2*i)) * 16 + hexval (Stdlib.String.get s (2*i+1))))
 let hex_of_bytes l =
   let b = Buffer.create 64 in
   Stdlib.List.iter (fun z -> Buffer.add_string b (Printf.sprintf "%02x" ((int_of_z z) land 255))) l;
   Buffer.contents b
-let bytes_of_string s = Stdlib.List.init (Stdlib.String.length s) (fun i -> z_of_int (Char.code s.[i]))
+let bytes_of_string s = Stdlib.List.init (Stdlib.String.length s) (fun i -> z_of_int (Char.code (Stdlib.String.get s (i))))
 let string_of_bytes l = Stdlib.String.concat "" (Stdlib.List.map (fun z -> Stdlib.String.make 1 (Char.chr ((int_of_z z) land 255))) l)
 let split_tab s = Stdlib.String.split_on_char '\t' s
+
+(* Coq strings (inductive, 8-bit ascii) <-> OCaml strings *)
+let ascii_of_char c =
+  let n = Char.code c in
+  let b i = (n lsr i) land 1 = 1 in
+  Ascii.Ascii (b 0, b 1, b 2, b 3, b 4, b 5, b 6, b 7)
+let char_of_ascii (Ascii.Ascii (b0, b1, b2, b3, b4, b5, b6, b7)) =
+  let v b i = if b then 1 lsl i else 0 in
+  Char.chr (v b0 0 + v b1 1 + v b2 2 + v b3 3 + v b4 4 + v b5 5 + v b6 6 + v b7 7)
+let rec coq_string_of_list = function [] -> String.EmptyString | c :: r -> String.String (ascii_of_char c, coq_string_of_list r)
+let coq_string s = coq_string_of_list (Stdlib.List.init (Stdlib.String.length s) (Stdlib.String.get s))
+let rec ocaml_string = function String.EmptyString -> "" | String.String (a, r) -> Stdlib.String.make 1 (char_of_ascii a) ^ ocaml_string r
